@@ -58,7 +58,7 @@ def generate_all():
                 text = src.text[k + 1:le - 1].strip("\n")
                 lines = (src.line_of(k), src.line_of(le - 1))
             else:
-                text, lines = src.region(r["fn"], r.get("first"), r.get("last"), r.get("within"), r.get("fn_ordinal", 0), r.get("first_ordinal", 0), r.get("until"), r.get("after_loop"))
+                text, lines = src.region(r["fn"], r.get("first"), r.get("last"), r.get("within"), r.get("fn_ordinal", 0), r.get("first_ordinal", 0), r.get("until"), r.get("after_loop"), r.get("after"))
             pre = r.get("prelude", "")
             post = r.get("postlude", "")
             if r.get("wrap_loop"):
